@@ -290,6 +290,13 @@ class ModelInterp(MiniEval):
     def isinstance_(self, v: Any, cls: Any) -> bool:
         classes = cls if isinstance(cls, tuple) else (cls,)
         for c in classes:
+            if isinstance(v, Raised):
+                # an exception object of the interpreted program (caught with `except ... as e`): its class is known by name
+                cname = c.q.split('.')[-1] if isinstance(c, ClassRef) else (c.attrs['q'].split('.')[-1] if isinstance(c, Hook) and 'q' in c.attrs else
+                                                                          c.__name__ if isinstance(c, type) else None)
+                if cname and self._exc_matches(v.cls_name, [cname]):
+                    return True
+                continue
             if isinstance(c, ClassRef):
                 if isinstance(v, Stub) and self.a.ct.is_subclass(v._cls, c.q):
                     return True
@@ -562,6 +569,8 @@ class ModelInterp(MiniEval):
             return
         if isinstance(s, ast.Raise) and s.exc is None and '__handling__' in env:
             raise env['__handling__']
+        if isinstance(s, ast.Raise) and isinstance(s.exc, ast.Name) and isinstance(env.get(s.exc.id), Raised):
+            raise env[s.exc.id]  # `raise ex` / `raise ex from e` of an exception OBJECT the program holds: that very object
         if (isinstance(s, ast.Expr) and isinstance(s.value, ast.Yield) or isinstance(s, ast.Assign) and isinstance(s.value, ast.Yield)) \
                 and env.get('__with_body__') is not None:
             # the `yield` of an inlined @contextmanager function: the block of the `with` statement runs here
